@@ -238,6 +238,54 @@ def extraction_selftest(timeout=600):
     return ok, len(cases), detail
 
 
+ALLOWED_AXIOMS = ["Coq.Logic.FunctionalExtensionality.functional_extensionality_dep", "Coq.Reals.ClassicalDedekindReals.sig_not_dec",
+                  "Coq.Reals.ClassicalDedekindReals.sig_forall_dec", "Coq.Logic.Classical_Prop.classic"]
+
+
+def coqchk_once(timeout=3600):
+    """thorough tier: the compiled development (every Properties module and all it depends on, standard library and Flocq
+    included) is re-checked by Coq's independent checker, once per state of the hand-written sources (the two generated data
+    files of theories/Gen change from run to run and are not part of the key). Returns a dict for the evidence."""
+    import hashlib
+    h = hashlib.sha256()
+    root = os.path.join(COQ, "theories")
+    for dp, dn, fn in sorted(os.walk(root)):
+        if os.path.basename(dp) == "Gen":
+            continue
+        for f in sorted(fn):
+            if f.endswith(".v"):
+                h.update(f.encode())
+                h.update(open(os.path.join(dp, f), "rb").read())
+    key = h.hexdigest()[:20]
+    d = os.path.join(WORK, "coqchk")
+    os.makedirs(d, exist_ok=True)
+    stamp = os.path.join(d, key + ".json")
+    with Lock("coqchk"):
+        if os.path.exists(stamp):
+            return dict(json.load(open(stamp)), reused=True)
+        mods = sorted("Verif.Properties." + f[:-3] for f in os.listdir(os.path.join(root, "Properties")) if f.endswith(".vo"))
+        t0 = time.time()
+        try:
+            with Lock("coq"):
+                p = run(["coqchk", "-silent", "-o", "-Q", "theories", "Verif"] + mods, cwd=COQ, timeout=timeout)
+            out = p.stdout + p.stderr
+            rc = p.returncode
+        except subprocess.TimeoutExpired:
+            out, rc = "coqchk timed out", -1
+        axioms = []
+        if "* Axioms:" in out:
+            blk = out.split("* Axioms:")[1].split("* Constants")[0]
+            axioms = [l.strip() for l in blk.splitlines() if l.strip() and l.strip() != "<none>"]
+        clean = all(("* " + k) in out and "<none>" in out.split("* " + k)[1].split("*")[0]
+                    for k in ("Constants/Inductives relying on type-in-type:", "Constants/Inductives relying on unsafe (co)fixpoints:",
+                              "Inductives whose positivity is assumed:")) if rc == 0 else False
+        info = {"ok": rc == 0 and clean and all(a in ALLOWED_AXIOMS for a in axioms), "exit": rc, "axioms": axioms, "modules": len(mods),
+                "seconds": round(time.time() - t0, 1), "sources_key": key, "detail": "" if rc == 0 else out[-1500:]}
+        if rc != -1:
+            json.dump(info, open(stamp, "w"))
+        return info
+
+
 def run_model(entry, inputs, timeout=1200, shards=12):
     """inputs: list of s-expression strings; returns list of output strings (several driver processes for large batches)"""
     outs = _run_model(entry, inputs, timeout, shards)
@@ -431,6 +479,12 @@ class Check:
         if not ok:
             self.violation("the extracted model differs from the Coq definitions on a case of this run (vm_compute inside Coq)",
                            {"theorem_or_correspondence": "extraction self-test", "detail": detail}, no_input=True)
+        if self.tier == "thorough":
+            info = coqchk_once()
+            self.coverage["coqchk"] = {k: v for k, v in info.items() if k != "detail"}
+            if not info["ok"]:
+                self.violation("the independent checker coqchk does not accept the compiled development (or reports an axiom outside the allow-list)",
+                               {"theorem_or_correspondence": "coqchk -o of every Properties module", "coqchk": info}, no_input=True)
         wall = time.time() - self.t0
         for cls, what in sorted(self.known_hit.items()):
             print("KNOWN-FINDING: property=%s class=%s %s" % (self.pid, cls, self.known[cls] or what))
